@@ -76,6 +76,11 @@ func Wrap(block cipher.Block, cek []byte) ([]byte, error) {
 // Unwrap decrypts the provided cipher text with the given AES cipher (and corresponding key), using the AES Key Wrap algorithm (RFC-3394).
 // The decrypted cipher text is verified using the default IV and will return an error if validation fails.
 func Unwrap(block cipher.Block, cipherText []byte) ([]byte, error) {
+	// The wrapped key is the 8-byte integrity check value followed by at least one 8-byte block
+	if len(cipherText)%8 != 0 || len(cipherText) < 16 {
+		return nil, errors.New("cipherText must be in 8-byte blocks and at least 16 bytes long")
+	}
+
 	// Initialize variables
 	a := make([]byte, 8)
 	n := (len(cipherText) / 8) - 1
